@@ -227,6 +227,10 @@ def run(chk):
                 chk.ok('C03-P', construct, 'total map, result kept', where, key='C03-P|%s|%s' % (fq, piece))
     chk.floor('loops over split pieces in the parser', nloops, 5)
 
+    chk.rule('C03-Z', 'fields beyond the defined count are not dropped by the encoder: the high-water mark of an open-ended segment is '
+                      'the trailing number of the field name (same facts as C02-K3 / C09-Z)')
+    from . import codelemmas as _clz
+    _clz.open_ended(chk, c, 'C03-Z')
     chk.rule('C03-F', 'the encoders and parsers decide what is a leaf with the element\'s own HL7 version: a leaf that is taken for a '
                       'structure (or the reverse) because the default version\'s tables were asked is encoded as nothing -- content '
                       'silently lost for every other version')
